@@ -306,3 +306,190 @@ Proof.
     + apply (proj1 (frame_trans _ _ _ _ _ f' f'' s')).
     + apply (proj2 (frame_trans _ _ _ _ _ f' f'' s')).
 Qed.
+
+(* ------------------------------------------------------------------ control *)
+Lemma hfeed_ctrl T cb k : forall H ss vs ty id e,
+  (rss (hfeed k T cb H ss vs ty id e), rkd (hfeed k T cb H ss vs ty id e)) = cfeed k T ss ty e.
+Proof.
+  induction k as [|k IH]; intros; simpl; auto.
+  destruct ss as [|s ss']; auto.
+  destruct (action T s ty) as [[s'|r]|]; auto.
+  - destruct e; auto.
+  - destruct (hcb (cb r) H (lastn (rarity T r) vs)) as [H1 v].
+    destruct (skipn (rarity T r) (s :: ss')) as [|s0 ss0]; auto.
+    destruct (goto T s0 (rlhs T r)) as [s1|]; auto.
+    destruct (e && (s1 =? end_state T)); auto.
+Qed.
+
+Lemma pfeed_ctrl T cb k : forall ss ts ty id e,
+  (qss (pfeed k T cb ss ts ty id e), qkd (pfeed k T cb ss ts ty id e)) = cfeed k T ss ty e.
+Proof.
+  induction k as [|k IH]; intros; simpl; auto.
+  destruct ss as [|s ss']; auto.
+  destruct (action T s ty) as [[s'|r]|]; auto.
+  - destruct e; auto.
+  - destruct (skipn (rarity T r) (s :: ss')) as [|s0 ss0]; auto.
+    destruct (goto T s0 (rlhs T r)) as [s1|]; auto.
+    destruct (e && (s1 =? end_state T)); auto.
+Qed.
+
+(* ------------------------------------------------------------------ callback-free feeds write nothing *)
+Lemma hfeed_pure T cb k : (forall r, cb_filter (cb r) = None) ->
+  forall H ss vs ty id e, exists ext, rH (hfeed k T cb H ss vs ty id e) = H ++ ext.
+Proof.
+  intros hc. induction k as [|k IH]; intros; simpl.
+  - exists []. unfold rH; simpl. rewrite app_nil_r; auto.
+  - assert (h0 : exists ext, H = H ++ ext) by (exists []; rewrite app_nil_r; auto).
+    destruct ss as [|s ss']; auto.
+    destruct (action T s ty) as [[s'|r]|]; auto.
+    + destruct e; auto.
+    + unfold hcb. rewrite hc. unfold halloc.
+      set (H1 := H ++ [lastn (rarity T r) vs]).
+      assert (h1 : exists ext, H1 = H ++ ext) by (eexists; reflexivity).
+      destruct (skipn (rarity T r) (s :: ss')) as [|s0 ss0]; auto.
+      destruct (goto T s0 (rlhs T r)) as [s1|]; auto.
+      destruct (e && (s1 =? end_state T)); auto.
+      match goal with |- exists _, rH (hfeed k T cb H1 ?a ?b ty id e) = _ =>
+        destruct (IH H1 a b ty id e) as [ext hx] end.
+      rewrite hx. unfold H1. rewrite <- app_assoc. eauto.
+Qed.
+
+(* ------------------------------------------------------------------ several parsers on one heap *)
+Definition prel (H : heap) (pp : pparser) (p : parser) (f : list loc) : Prop :=
+  p_imm p = pp_imm pp /\ p_ss p = pp_ss pp /\ owns H (pp_ts pp) (p_vs p) f.
+
+(* every parser denotes its immutable counterpart and no two parsers reach a common location *)
+Inductive wowns (H : heap) : list pparser -> list parser -> list loc -> Prop :=
+| wo_nil : wowns H [] [] []
+| wo_cons pp pps p ps f fs :
+    prel H pp p f -> wowns H pps ps fs -> disjoint f fs ->
+    wowns H (pp :: pps) (p :: ps) (f ++ fs).
+
+Lemma wowns_bound H pps ps F : wowns H pps ps F -> forall l, In l F -> l < length H.
+Proof.
+  induction 1 as [|pp pps p ps f fs [_ [_ ho]] hw IH hd]; simpl; [tauto|].
+  intros l hl. apply in_app_or in hl. destruct hl; auto. eapply owns_bound; eauto.
+Qed.
+
+Lemma wowns_frame H pps ps F : wowns H pps ps F -> forall H',
+  (forall l, In l F -> nth_error H' l = nth_error H l) -> wowns H' pps ps F.
+Proof.
+  induction 1 as [|pp pps p ps f fs [hi [hs ho]] hw IH hd]; intros H' hf; constructor; auto.
+  - repeat split; auto. eapply owns_frame; eauto. intros; apply hf; apply in_or_app; auto.
+  - apply IH. intros; apply hf; apply in_or_app; auto.
+Qed.
+
+Lemma wowns_length H pps ps F : wowns H pps ps F -> length pps = length ps.
+Proof. induction 1; simpl; auto. Qed.
+
+Lemma wowns_snoc H pps ps F : wowns H pps ps F -> forall pp p f,
+  prel H pp p f -> disjoint F f -> wowns H (pps ++ [pp]) (ps ++ [p]) (F ++ f ++ []).
+Proof.
+  induction 1 as [|pp0 pps p0 ps f0 fs hp hw IH hd]; intros pp p f hpr hdj; simpl.
+  - constructor; auto using disjoint_nil_r. constructor.
+  - rewrite <- app_assoc. apply disjoint_app_l in hdj. destruct hdj.
+    constructor; auto. rewrite app_nil_r. apply disjoint_app_r; auto.
+Qed.
+
+(* a new parser whose footprint is entirely new, in a heap that kept everything old *)
+Lemma wowns_append H pps ps F H' pp p f :
+  wowns H pps ps F -> (forall l, l < length H -> nth_error H' l = nth_error H l) ->
+  prel H' pp p f -> fresh_above (length H) f ->
+  exists F', wowns H' (pps ++ [pp]) (ps ++ [p]) F'.
+Proof.
+  intros hw hold hp hfr. exists (F ++ f ++ []).
+  apply wowns_snoc; auto.
+  - eapply wowns_frame; eauto. intros l hl. apply hold. eapply wowns_bound; eauto.
+  - intros l h1 h2. apply (wowns_bound _ _ _ _ hw) in h1. apply hfr in h2. lia.
+Qed.
+
+(* replacing parser i by the outcome of an operation that stayed inside i's footprint *)
+Lemma wowns_set H pps ps F : wowns H pps ps F -> forall i p, nth_error ps i = Some p ->
+  exists pp f, nth_error pps i = Some pp /\ prel H pp p f /\ (forall x, In x f -> In x F) /\
+    forall H' pp' p' f', prel H' pp' p' f' -> sub f' f (length H) -> frame H H' f ->
+      exists F', wowns H' (set_nth pps i pp') (set_nth ps i p') F' /\ sub F' F (length H).
+Proof.
+  induction 1 as [|pp0 pps p0 ps f0 fs hp hw IH hd]; intros i p hn.
+  - destruct i; discriminate.
+  - destruct i as [|i]; simpl in hn.
+    + inversion hn; subst p0. exists pp0, f0.
+      split; [reflexivity|]. split; [exact hp|]. split; [intros; apply in_or_app; auto|].
+      intros H' pp' p' f' hp' hs [hl hf]. exists (f' ++ fs). split.
+      * simpl. constructor; auto.
+        -- eapply wowns_frame; eauto. intros l hx. apply hf.
+           ++ eapply wowns_bound; eauto.
+           ++ intros h0. apply (hd l); auto.
+        -- intros l h1 h2. destruct (hs l h1) as [h|h]; [apply (hd l); auto|].
+           apply (wowns_bound _ _ _ _ hw) in h2. lia.
+      * intros l hx. apply in_app_or in hx. destruct hx as [hx|hx].
+        -- destruct (hs l hx); [left; apply in_or_app; auto|auto].
+        -- left; apply in_or_app; auto.
+    + destruct (IH i p hn) as (pp & f & a & b & c & d).
+      exists pp, f.
+      split; [exact a|]. split; [exact b|]. split; [intros; apply in_or_app; auto|].
+      intros H' pp' p' f' hp' hs hfr.
+      destruct (d H' pp' p' f' hp' hs hfr) as (F' & hw' & hs').
+      exists (f0 ++ F'). split.
+      * simpl. constructor; auto.
+        -- destruct hp as [x [y z]]. repeat split; auto.
+           eapply owns_frame; eauto. intros l hl. destruct hfr as [_ hf]. apply hf.
+           ++ eapply owns_bound; eauto.
+           ++ intros h0. apply (hd l); auto.
+        -- intros l h1 h2. destruct (hs' l h2) as [h|h]; [apply (hd l); auto|].
+           destruct hp as [_ [_ z]]. apply (owns_bound _ _ _ _ z) in h1. lia.
+      * intros l hx. apply in_app_or in hx. destruct hx as [hx|hx].
+        -- left; apply in_or_app; auto.
+        -- destruct (hs' l hx); [left; apply in_or_app; auto|auto].
+Qed.
+
+Lemma wowns_none H pps ps F i : wowns H pps ps F -> nth_error ps i = None -> nth_error pps i = None.
+Proof.
+  intros hw hn. apply nth_error_None. apply nth_error_None in hn.
+  rewrite (wowns_length _ _ _ _ hw). auto.
+Qed.
+
+(* ------------------------------------------------------------------ accepts *)
+Lemma copy_parser_deep_spec H p ts f : owns H ts (p_vs p) f ->
+  exists ext f', fst (copy_parser true H p) = H ++ ext /\
+    p_imm (snd (copy_parser true H p)) = p_imm p /\ p_ss (snd (copy_parser true H p)) = p_ss p /\
+    owns (H ++ ext) ts (p_vs (snd (copy_parser true H p))) f' /\ fresh_above (length H) f'.
+Proof.
+  intros ho. destruct (deepcopy_spec _ _ _ _ ho) as (ext & f' & a & b & c).
+  unfold copy_parser. destruct (deepcopy H (p_vs p)) as [H1 vs1]. simpl in *. subst H1.
+  exists ext, f'. auto.
+Qed.
+
+Lemma trial_spec k T H p t ts f : owns H ts (p_vs p) f ->
+  (exists ext, fst (trial k T H p t) = H ++ ext) /\
+  snd (trial k T H p t) = snd (cfeed k T (p_ss p) t (t =? END)).
+Proof.
+  intros ho. unfold trial. change (copy_parser false H p) with (H, p). cbv beta iota.
+  assert (hh : exists ext ts' f', fst (if p_imm p then copy_parser true H p else (H, p)) = H ++ ext /\
+            p_ss (snd (if p_imm p then copy_parser true H p else (H, p))) = p_ss p /\
+            owns (H ++ ext) ts' (p_vs (snd (if p_imm p then copy_parser true H p else (H, p)))) f').
+  { destruct (p_imm p).
+    - destruct (copy_parser_deep_spec _ _ _ _ ho) as (ext & f' & a & b & c & d & e). exists ext, ts, f'. auto.
+    - exists [], ts, f. simpl. rewrite app_nil_r. auto. }
+  destruct hh as (ext & ts' & f' & a & b & c).
+  destruct (if p_imm p then copy_parser true H p else (H, p)) as [H1 p1]. simpl in a, b, c. subst H1.
+  unfold hifeed.
+  pose proof (hfeed_ctrl T (fun _ => cb_none) k (H ++ ext) (p_ss p1) (p_vs p1) t 0 (t =? END)) as hc.
+  destruct (hfeed_pure T (fun _ => cb_none) k (fun _ => eq_refl) (H ++ ext) (p_ss p1) (p_vs p1) t 0 (t =? END)) as [ext2 hx].
+  destruct (hfeed k T (fun _ : nat => cb_none) (H ++ ext) (p_ss p1) (p_vs p1) t 0 (t =? END)) as [[[H2 ss2] vs2] kd].
+  unfold rH, rss, rkd in *. simpl in *. subst H2. rewrite b in hc. rewrite <- hc. simpl.
+  split; auto. rewrite <- app_assoc. eauto.
+Qed.
+
+Lemma accepts_loop_spec k T p ts f tl : forall H, owns H ts (p_vs p) f ->
+  (exists ext, fst (accepts_loop k T H p tl) = H ++ ext) /\
+  snd (accepts_loop k T H p tl) =
+    filter (fun t => kind_ok (snd (cfeed k T (p_ss p) t (t =? END)))) tl.
+Proof.
+  induction tl as [|t tl IH]; intros H ho; simpl.
+  - split; auto. exists []. rewrite app_nil_r; auto.
+  - destruct (trial_spec k T H p t ts f ho) as [[e1 h1] h2].
+    destruct (trial k T H p t) as [H1 kd]. simpl in h1, h2. subst H1 kd.
+    destruct (IH (H ++ e1) (owns_extend _ _ _ _ _ ho)) as [[e2 h3] h4].
+    destruct (accepts_loop k T (H ++ e1) p tl) as [H2 acc]. simpl in *. subst H2 acc.
+    split; auto. rewrite <- app_assoc. eauto.
+Qed.
